@@ -5,7 +5,7 @@
 import os, sys
 sys.path.insert(0, os.path.join(os.environ.get("AIOFTP_REPO", "/repo"), "src"))
 OBLIGATION = 'aioftp.server:Server.pasv#SEQ::Server.pasv/listen:open-data-listener:authorised'
-MODEL = {'logged_done!15': False, 'current_directory_done!17': True, 'pool_size!14': 0, 'block_size!0': 1, 'current_directory_present!16': True, 'user_present!12': False, 'pool_size!1': 0, 'cwd!12': 'Unit("!1!")', 'u_cur_home!11': 'Unit("!0!")', 'pool_cnt0': 'K(Int, 2)', 'restart_offset!11': 0, 'passive_server_done!21': False, 'passive_server_present!20': True, 'logged_present!14': True, 'pool_rest!14': 'K(Int, 0)', 'pool_cnt!14': 'K(Int, 0)'}
+MODEL = {'block_size!0': 1, 'logged_done!15': False, 'current_directory_done!17': True, 'current_directory_present!16': True, 'restart_offset!11': 0, 'cwd!192': 'Unit("!0!")', 'pool_size!194': 0, 'pool_size!1': 0, 'pool_cnt0': 'K(Int, 2)', 'u_cur_home!191': 'Unit("!1!")', 'passive_server_done!21': False, 'passive_server_present!20': True, 'pool_rest!194': 'K(Int, 0)', 'pool_cnt!194': 'K(Int, 0)', 'logged_present!14': True}
 SOLVER_NOTE = ''
 
 print("obligation", OBLIGATION, "failed; no concrete failing input could be constructed automatically")
